@@ -7,7 +7,7 @@
    Entries(1,3); it is evaluated against the implementation on every run of the check (witness case W0 of the
    harness; too large to be a pleasant kernel computation here, although [vm_compute] does it in seconds). *)
 From Coq Require Import NArith List Bool.
-From OG Require Import C17.Model C17.Corr.
+From OG Require Import C17.Model C17.Corr C17.Refine C17.Inv C17.Clobber.
 Import ListNotations.
 Open Scope N_scope.
 
@@ -57,3 +57,18 @@ Theorem C17_zerofill_refuted_real_constants :
   = [ []; []; [(1, 5, 7); (2, 5, 8)]; []; [(1, 5, 7); (2, 5, 8)] ].
 Proof. split; vm_compute; reflexivity. Qed.
 Print Assumptions C17_zerofill_refuted_real_constants.
+
+(* Not only a witness: for ALL layout parameters and every well-formed file whose first payload sits at data_off
+   and is not empty, today's zero-fill of a conflict truncation at any slot lo > 0 of that (rotated) file returns the
+   entry of slot 0 with an EMPTY payload. *)
+Theorem C17_zerofill_current_clobbers : forall P f A D lo a t,
+  fview P f A D -> A = a :: t -> (0 < lo)%nat -> (lo < length A)%nat ->
+  entry_sz * f_n f <= data_off P ->
+  s_off (r_slot a) = data_off P -> p_len (c_pay (r_cell a)) <> 0 ->
+  exists rest,
+    file_entries (zero_fill VCurrent P (data_off P) (N.of_nat lo) f)
+    = mkent (s_index (r_slot a)) (s_term_ (r_slot a)) (s_type (r_slot a)) empty_pay :: rest
+    /\ hd_error (file_entries f)
+       = Some (mkent (s_index (r_slot a)) (s_term_ (r_slot a)) (s_type (r_slot a)) (c_pay (r_cell a))).
+Proof. exact zero_fill_current_clobbers. Qed.
+Print Assumptions C17_zerofill_current_clobbers.
